@@ -204,6 +204,23 @@ func c14Rules(p *core.Prog, r *core.Run) {
 				r.Check("C14.N3", "alias:followed-under-priority-0", prio, p.InstrPos(ph), "the next name in the chain is an HTTPS record's target only when that record is in alias mode (Priority == 0)")
 			}
 			r.Check("C14.N3", "alias:follow-edge", nAlias == 1, p.InstrPos(ph), "one edge follows an alias (found %d)", nAlias)
+			// ... and the chain moves on in no other way: the name looked up next
+			// is never anything but an alias target (not, say, another origin's name)
+			if body := core.Loops(rs)[ph.Block()]; body != nil {
+				for i, e := range ph.Edges {
+					if !body[ph.Block().Preds[i]] {
+						continue
+					}
+					x := p.X(e)
+					for x.Op == "call" && matches(`strings\.(TrimSuffix|ToLower)`, x.Name) && len(x.Args) > 0 {
+						x = x.Args[0]
+					}
+					if x.Op == "field" && x.Name == "Target" || e == ssa.Value(ph) {
+						continue
+					}
+					r.Check("C14.N3", fmt.Sprintf("alias:other-way-round#%d", i), false, p.InstrPos(ph), "the HTTPS lookup is repeated for a name that is not an alias target: %s", short(x))
+				}
+			}
 		} else {
 			r.Check("C14.N3", "alias:chain", false, p.InstrPos(httpsLookup.Instr), "the HTTPS lookup is not in a loop that follows aliases")
 		}
@@ -591,6 +608,35 @@ func c14OwnerFilter(p *core.Prog, r *core.Run, noc *ssa.Function, rule string) {
 		}
 		n++
 		owner, typ := false, false
+		// (what holds at the top of the innermost loop around the append)
+		base := map[string]bool{}
+		var hdr *ssa.BasicBlock
+		for h, body := range core.Loops(noc) {
+			if body[s.Block()] && (hdr == nil || core.Loops(noc)[hdr][h]) {
+				hdr = h
+			}
+		}
+		if hdr != nil {
+			for _, f := range p.Facts(hdr) {
+				base[f.String()] = true
+			}
+			for _, sc := range hdr.Succs {
+				if core.Loops(noc)[hdr][sc] {
+					for _, f := range p.EdgeFacts(hdr, sc) {
+						base[f.String()] = true
+					}
+				}
+			}
+		}
+		var extra []string
+		for _, f := range p.Facts(s.Block()) {
+			isO := f.Op == "==" && (isOwner(f.L) || isOwner(f.R))
+			isT := f.Op == "==" && f.L.Op == "field" && f.L.Name == "Type" && f.R.Op == "call" && f.R.Name == "dns.RRType" && f.R.Args[0].Op == "param"
+			if hdr != nil && !isO && !isT && !base[f.String()] {
+				extra = append(extra, f.String())
+			}
+		}
+		r.Check(rule, "lookup:use-every-record", hdr != nil && len(extra) == 0, p.InstrPos(s.Instr), "every record of the right owner and type is returned: nothing else decides inside the answer loop (further conditions: %v)", extra)
 		for _, f := range p.Facts(s.Block()) {
 			if f.Op == "==" && (isOwner(f.L) || isOwner(f.R)) {
 				owner = true
@@ -731,6 +777,61 @@ func c14Rcode(p *core.Prog, r *core.Run, noc *ssa.Function) {
 			}
 		}
 	}
+	// the error wrapped with %w: an entry of the table selected by the response
+	// code, or (the table written as a switch) a documented error chosen on the
+	// way where the response code equals its number
+	isRC := func(e *core.Expr) bool {
+		return e.Any(func(x *core.Expr) bool { return x.Op == "call" && x.Name == "(dns.Message).ResponseCode" })
+	}
+	wrapped := false
+	bySwitch := map[int64]string{}
+	var ways func(v ssa.Value, fs []core.Fact, depth int) bool
+	ways = func(v ssa.Value, fs []core.Fact, depth int) bool {
+		if ph, isPhi := v.(*ssa.Phi); isPhi && depth < 5 {
+			all := true
+			for i, e := range ph.Edges {
+				pred := ph.Block().Preds[i]
+				efs := append(append(append([]core.Fact{}, fs...), p.EdgeFacts(pred, ph.Block())...), p.Facts(pred)...)
+				if !ways(e, efs, depth+1) {
+					all = false
+				}
+			}
+			return all
+		}
+		x := p.X(v)
+		switch {
+		case x.Op == "const":
+			return true // no documented error for this code
+		case (x.Op == "lookup" || x.Op == "index") && x.Args[0].Op == "global" && x.Args[0].Name == "ech.rcode" && isRC(x.Args[1]):
+			return true
+		case x.Op == "global" && strings.HasPrefix(x.Name, "ech.Err"):
+			for _, f := range fs {
+				if f.Op == "==" && f.R != nil && isRC(f.L) {
+					if k, isK := f.R.ConstInt(); isK {
+						bySwitch[k] = strings.TrimPrefix(x.Name, "ech.")
+						return true
+					}
+				}
+			}
+		}
+		return false
+	}
+	for _, s := range callSites(p, []*ssa.Function{noc}, `fmt\.Errorf`) {
+		if !strings.Contains(s.X.Args[0].Name, "%w") {
+			continue
+		}
+		for _, a := range variadicArgs(p, s.Instr.Common().Args[1]) {
+			if a.Val == nil || a.Val.Type().String() != "error" {
+				continue
+			}
+			if ways(a.Val, p.Facts(s.Block()), 0) {
+				wrapped = true
+			}
+		}
+	}
+	if len(got) == 0 {
+		got = bySwitch
+	}
 	ok := len(got) == len(want)
 	for k, v := range want {
 		if got[k] != v {
@@ -739,17 +840,6 @@ func c14Rcode(p *core.Prog, r *core.Run, noc *ssa.Function) {
 	}
 	r.Tables["rcode_map"] = fmt.Sprint(got)
 	r.Check("C14.N5", "rcode:table", ok, p.Pos(noc.Pos()), "rcode table %v equals RFC 1035 4.1.1 codes 1..5 -> documented errors", got)
-	wrapped := false
-	for _, s := range callSites(p, []*ssa.Function{noc}, `fmt\.Errorf`) {
-		if !strings.Contains(s.X.Args[0].Name, "%w") {
-			continue
-		}
-		for _, a := range variadicArgs(p, s.Instr.Common().Args[1]) {
-			if a.Op == "lookup" && a.Args[0].Op == "global" && a.Args[0].Name == "ech.rcode" && a.Args[1].Op == "call" && a.Args[1].Name == "(dns.Message).ResponseCode" {
-				wrapped = true
-			}
-		}
-	}
 	r.Check("C14.N5", "rcode:wrapped", wrapped, p.Pos(noc.Pos()), "the mapped error is wrapped with %%w, keyed by the response's (extended) response code")
 }
 
